@@ -70,10 +70,12 @@ Definition expected_inventory : list (string * string * string * string) := [
   ("panic", "scanner", "eventStack.peek", """Reading from empty stack""");
   ("panic", "scanner", "stepFuncStack.peek", """Reading from empty stack""");
   ("pkgvar", "catalog", "", "annotationReplacer : *regexp.Regexp");
+  ("pkgvar", "catalog", "", "exampleMu : sync.Mutex");
   ("pkgvar", "directive", "", "directiveAllowedToDirectiveContext : map[github.com/jsightapi/jsight-api-core/directive.Enumeration]map[github.com/jsightapi/jsight-api-core/directive.Enumeration]struct{}");
   ("pkgvar", "directive", "", "ee : map[string]github.com/jsightapi/jsight-api-core/directive.Enumeration");
   ("pkgvar", "directive", "", "eeOnce : sync.Once");
   ("pkgvar", "directive", "", "ss : []string");
+  ("pkgvar", "kit", "", "openAPIMarshalMu : sync.Mutex");
   ("pkgvar", "scanner", "", "anyType : github.com/jsightapi/jsight-schema-core/bytes.Bytes");
   ("pkgvar", "scanner", "", "emptyTracer : github.com/jsightapi/jsight-api-core/scanner.emptyIncludeTracer");
   ("pkgvar", "scanner", "", "emptyType : github.com/jsightapi/jsight-schema-core/bytes.Bytes");
